@@ -1013,6 +1013,18 @@ def run(tier, seed):
         seen[v["signature"]] += 1
         if seen[v["signature"]] <= MAX_PER_SIGNATURE:
             kept.append(v)
+    # values seen through the drillhole-group tables (a per-hole view of the shared concatenated channels) are decided
+    # by spec/concat/DrillholeConcat.tla: its deep export (three holes sharing a channel, SetValues, table reads) runs
+    # through the C04 engine
+    from . import C04
+    cviol, ccov = C04.run_subset([("DrillholeConcatExportDeep.cfg", 21, 250 if tier == "quick" else None)], seed)
+    for v in cviol:
+        if v["signature"].startswith("asbuilt:"):
+            continue        # recorded findings of C04 itself (reported by ./check C04)
+        w = dict(v)
+        w["signature"] = "concat:" + v["signature"]
+        w["case"] = {"concat": v.get("case")}
+        kept.append(w)
     mid = cases[len(cases) // 2]
     sample_item = {"c": mid["c"], "o": mid["o"], "ab": mid["ab"], "pick": 0, "seed": seed, "extra": par["extra"]}
     return {
@@ -1025,6 +1037,7 @@ def run(tier, seed):
             "samples": [{"case": mid["c"], "outcome": mid["o"],
                          "values": _short(instantiate(sample_item))}],
             "replay_wall_s": round(wall, 1), "tlc_wall_s": round(res.wall_s, 1),
+            "concatenated_tables": ccov,
             "replays_by_family": {k[4:]: v for k, v in sorted(stats.items()) if k.startswith("fam:")},
             "replays_by_kind": {k[5:]: v for k, v in sorted(stats.items()) if k.startswith("kind:")},
             "replays_by_specified_outcome": {k[8:]: v for k, v in sorted(stats.items()) if k.startswith("verdict:")},
@@ -1062,6 +1075,12 @@ def run(tier, seed):
 
 def replay(doc):
     case = doc["case"]
+    if "concat" in case:
+        from . import C04
+        rep = C04.replay({"case": case["concat"]})
+        for v in rep["violations"]:
+            v["signature"] = "concat:" + v["signature"]
+        return rep
     if case.get("sentinels"):
         return {"violations": _check_constants(), "coverage": {"replayed": 1}}
     scratch()
